@@ -143,6 +143,45 @@ CHECKS["C06"] = ("sweep + bfs", "model_checking",
     "SGR 21 and codes the library does not claim are outside the alphabet; underline colour has no slot in Face.",
     "DESIGN.md §C06")
 
+CHECKS["C07"] = ("bfs", "model_checking",
+    "explicit-state BFS over chains of view/transpose to the fixpoint of the shape graph on the real surface types against a list-of-lists window model",
+    "Bases with sides 0..=5 (0..=8) in a dense and a strided/padded layout, 122 operations (transpose and view(rows, cols) over an 11-symbol selector alphabet incl. negative, inclusive, open, empty and out-of-range bounds); key = base + Shape; the BFS runs to the "
+    "fixpoint (5 001 / 57 794 states, so chain length is unbounded). Every transition re-executes the program through four ownership paths (view on &S, view_mut, view_owned on &mut S, nested owned view over Box<dyn SurfaceMut>) which must agree, and runs the full access battery: "
+    "get/get_mut inside and in a ring outside (incl. usize::MAX probes), iter (count, order, position, index), iter_mut with the raw addresses of all yielded references required pairwise distinct and inside the window, nth, fill, fill_with, clear, insert at every offset, map, "
+    "to_owned_surf, each against the window model, with a sentinel copy of the base compared after every mutation. Thorough adds a Miri replay of a reduced program set (supplementary UB detector, never the decider).",
+    "Range resolution itself is C08; the `end` field is judged by its documentation ('offset of the last + 1 element'); sides above 8 and selectors outside the alphabet are not explored.",
+    "DESIGN.md §C07")
+CHECKS["C09"] = ("sweep", "exploration",
+    "exhaustive enumeration of cell sequences x view placements x all write partitions against a sentinel canvas",
+    "All sequences of up to 4 (6) cells over 12 kinds (narrow, 2-byte, wide, two zero-width, newline, tab, CR, glyph with narrow / wide fallback, images of 1 and 2x2 cells) are written into views of 1..3 x 1..5 cells placed plainly, offset, strided (stride 2) and transposed "
+    "inside a 7x10 sentinel canvas, wraps on/off, glyph support on/off, cursor at the origin or in the last column, through put_cell, io::Write on TerminalWriter, utf8_writer(), tty_writer() (SGR between characters) and the Text view (layout + render). "
+    "Oracle: no canvas cell outside the view changes; ALL 2^(n-1) partitions of the bytes into write calls (byte strings up to 12 bytes; <= 2 cuts and byte-by-byte beyond) give the same canvas and no partition-dependent error; the write paths agree with each other; "
+    "for Text rendered into the size its own layout reported for max widths 1..6 every printable cell (glyph fallback characters without glyph support) appears exactly once in reading order, with wrapping off only cells beyond the right edge are missing.",
+    "Texts containing CR are exempt from 'exactly once'; widths above 6 and longer sequences are not explored.",
+    "DESIGN.md §C09")
+CHECKS["C10"] = ("sweep", "exploration",
+    "exhaustive enumeration of view trees from explicit sub-grammars x 100 constraints x glyph settings, with probe leaves and a JSON twin",
+    "All trees of up to 4 (5) nodes over a small grammar, all trees of up to 2 nodes over the full parameter lattices (21 leaves incl. text, fills, images, glyph, scroll bars with visible in {0,0.5,1,NaN}, two probe leaves; 768 containers = sizes x alignments x margins incl. usize::MAX and "
+    "offset(i32::MIN); Frame, Tag, Dynamic, Option, Either, trace_layout; 12x56 flex variants with factors incl. NaN, negative, 1e308 and zero children), all containers over composite children and single flexes with 2-3 children: 283 836 (8.05 M) trees x 100 constraints (all min <= max over heights {0,1,2,5} x widths {0,1,3,7}) x glyph support. "
+    "Oracle: no panic and no Err; rendering into a sentinel-bordered sub-view leaves the border intact; every bounded view at every depth reports min <= size <= max; probe leaves paint exactly the rectangle obtained by summing positions down the layout tree clipped by every ancestor, "
+    "and find_path from every painted cell ends at that probe's node; every tree with a JSON form is rebuilt through ViewDeserializer and must lay out identically.",
+    "Justification / alignment placement semantics are not judged (statement silent); Offscreen, ScrollBarFn and ViewCached are not in the grammar; trees above 5 nodes are not explored.",
+    "DESIGN.md §C10")
+CHECKS["C13"] = ("sweep", "exploration",
+    "exhaustive small-image and small-palette sweeps against brute-force nearest-colour search",
+    "All images of up to 4 (6) pixels over a 12-colour alphabet in every arrangement (crops of a poisoned border included), all multiset images with each colour 0..=2 times (so that the octree pruning loop is reached: it needs >= 9 distinct colours), subsampled periodic images, "
+    "x requested sizes {1..10, 256} x dithering on/off x 2 (3) backgrounds: 15.8 M (414 M) quantisations; all palettes of 1-3 colours over a 4^3 lattice x 125 queries and 5 (8) structured palettes of 2..512 colours (xterm-256, clustered, all-equal, duplicates) x ALL 2^24 queries against brute force. "
+    "Oracle: Some for non-empty images, 1 <= |palette| <= max(requested, 8), indices valid, without dithering each pixel maps to an entry at minimal squared RGB distance from the composited pixel, find is minimal for every query, exact reproduction when the distinct colours fit and the image is not subsampled; a watchdog turns a stuck pruning loop into a violation.",
+    "Compositing of transparent pixels uses the rasterize crate's blend_over (assumed); which of several tied entries wins is not judged; palettes smaller than necessary are allowed by the statement (measured and reported as a lead).",
+    "DESIGN.md §C13")
+CHECKS["C19"] = ("sweep (worker subprocesses)", "exploration",
+    "complete round-trip lattices + deviation-bounded enumeration of JSON mutations in resource-limited worker subprocesses",
+    "Round trips: 2.74 M faces (thorough: the full 48.2 M product of colours incl. alpha x attribute sets) through Display/FromStr and serde, every writable key x 256 modifier sets, chords up to length 3, sizes over {0,1,2,65535,usize::MAX}^2, all crops of images up to 3x3 and 1x1000, hand-built 1/3/4-channel inputs. "
+    "Hostile documents: 12 valid seed documents (Image, Glyph, Text, view trees using every view type) with EVERY single mutation (5 615) in quick and EVERY pair of mutations (2.6 M) in thorough from a 20-value replacement alphabet (null, numbers up to 2^64-1 and 1e308, empty / deep arrays, wrapped sizes, broken base64, every view type name, 100- and 1000-deep nests) plus key deletion, duplication and swaps, "
+    "each through the JSON text route and the Value route, in worker subprocesses with an 8 MiB stack, a 3 GiB address-space limit and an 8 s stall timeout. Oracle: deserialisation returns (no panic, abort, stack overflow, stall); every view tree that deserialises is laid out under 6 constraints and rendered into a sentinel-bordered canvas without panicking; accepted and rejected counts must both be non-zero per deserialiser.",
+    "Documents larger than the seeds and mutation sets larger than pairs are not enumerated; serde_json's own recursion limit is trusted.",
+    "DESIGN.md §C19")
+
 PENDING = {}
 ALL = ["C%02d" % i for i in range(1, 21)]
 
